@@ -59,7 +59,7 @@ Inductive err :=
 | EFillComplex        (* ValueError: Fill can not be in the data block ... *)
 | ENumberConflict     (* NumberConflictError *)
 | EKey                (* KeyError *)
-| ENoTarget.          (* the program names a cell that does not exist (harness never does) *)
+| ENoTarget.          (* KeyError: problem.cells[n] for a cell that is not in the problem *)
 
 Inductive res (A : Type) := Ok (a : A) | Err (e : err).
 Arguments Ok {A} a.
@@ -765,7 +765,7 @@ Definition show_err (e : err) : string :=
   | EPartNotInProblem => "ParticleTypeNotInProblem" | EPartNotInCell => "ParticleTypeNotInCell"
   | EListRemove => "ValueError" | ENoneUniverse => "AttributeError" | ENoneVolume => "AttributeError"
   | EFillComplex => "ValueError" | ENumberConflict => "NumberConflictError" | EKey => "KeyError"
-  | ENoTarget => "NoTarget"
+  | ENoTarget => "KeyError"
   end.
 
 Definition show_cls (k : cls) : string :=
